@@ -84,7 +84,7 @@ def rv_blocks_quick(rng):
 def pad3(w):
     n = (-len(w)) % 3
     if n:
-        w = np.concatenate([w, w[:n]])
+        w = np.concatenate([w, np.repeat(w[:1], n)])
     return w.reshape(-1, 3)
 
 
